@@ -11,7 +11,7 @@ for d in sorted(glob.glob(os.path.join(V, "seeded", "*"))):
     ok = [p for p, v in sorted(ch.items()) if v == "ok"]
     own = ch.get(m["property"], "not run")
     rows.append("| `%s` | %s | %s | %s | %s | %s |" % (
-        os.path.basename(d), m["summary"].replace("|", "/")[:260], m["needs"].replace("|", "/")[:260],
+        os.path.basename(d), m["summary"].replace("|", "/")[:150], m["needs"].replace("|", "/")[:150],
         " ".join(fi) or "—", " ".join(nf) or "—", "**%s**" % own.replace("VIOLATION ", "")))
 table = ("| seed | change | needs | checks reporting a failing input | checks reporting `no-failing-input-found` | own property's check |\n|---|---|---|---|---|---|\n" + "\n".join(rows))
 p = os.path.join(V, "DESIGN.md")
